@@ -22,6 +22,7 @@ import (
 	"github.com/libp2p/go-libp2p/p2p/muxer/yamux"
 	"github.com/libp2p/go-libp2p/p2p/net/swarm"
 	"github.com/libp2p/go-libp2p/p2p/net/upgrader"
+	"github.com/libp2p/go-libp2p/p2p/protocol/identify"
 	"github.com/libp2p/go-libp2p/p2p/security/noise"
 	libp2ptls "github.com/libp2p/go-libp2p/p2p/security/tls"
 	ma "github.com/multiformats/go-multiaddr"
@@ -95,7 +96,7 @@ func TestL5UpgraderStack(t *testing.T) {
 		c.Cap = rapid.SampledFrom(capSizes).Draw(rt, "cap")
 		c.Chop[0], c.Chop[1] = drawChop(rt, "chopA"), drawChop(rt, "chopB")
 		drawStack(rt, c)
-		c.Streams = drawStreams(rt, 4, 1)
+		c.Streams = drawStreams(rt, 4, 1, yamuxWindow)
 		var out streamsOutcome
 		hx.Bubble(t, rt, func() {
 			idA, idB := keys.Ed(1), keys.Ed(2)
@@ -303,6 +304,18 @@ func runHostStreams(f failer, env runEnv, hosts [2]host.Host, c *hostCase) strea
 	for side := 0; side < 2; side++ {
 		self, other := hosts[side], hosts[1-side]
 		o[side] = func(ctx context.Context, idx int) (halfStream, error) {
+			// Identify stores the peer's protocols when it completes: let it finish first, so that
+			// the peerstore entry written below (and with it the lazy / eager choice NewStream
+			// makes) is the drawn one and not the outcome of a race with identify.
+			if ih, ok := self.(interface{ IDService() identify.IDService }); ok {
+				for _, cn := range self.Network().ConnsToPeer(other.ID()) {
+					select {
+					case <-ih.IDService().IdentifyWait(cn):
+					case <-ctx.Done():
+						return nil, fmt.Errorf("identify did not complete: %w", ctx.Err())
+					}
+				}
+			}
 			if c.Lazy[idx] {
 				self.Peerstore().AddProtocols(other.ID(), pidOf(idx))
 			} else {
@@ -341,9 +354,19 @@ func TestL5Hosts(t *testing.T) {
 		c.Cap = rapid.SampledFrom(capSizes).Draw(rt, "cap")
 		c.Chop[0], c.Chop[1] = drawChop(rt, "chopA"), drawChop(rt, "chopB")
 		drawStack(rt, &c.muxCase)
-		c.Streams = drawStreams(rt, 4, 1)
+		// multistream negotiation runs on the stream itself before the payload (a few dozen
+		// bytes each way): the polling class gets that much less than the initial window
+		c.Streams = drawStreams(rt, 4, 1, yamuxWindow-1024)
 		for i := range c.Streams {
 			c.Lazy = append(c.Lazy, rapid.IntRange(0, 2).Draw(rt, fmt.Sprintf("s%d-lazy", i)) > 0)
+			if c.Lazy[i] {
+				// The opener's end of a lazily negotiated stream performs the multistream handshake
+				// inside its first Write / Read (and in a goroutine of its own); a deadline that
+				// expires in there fails the negotiation for good, by design. Deadlines on that end
+				// are therefore not generated; the acceptor's end (a plain swarm stream) keeps them.
+				c.Streams[i].Fwd.DL.W = 0
+				c.Streams[i].Rev.DL.R = 0
+			}
 		}
 		var out streamsOutcome
 		hx.Bubble(t, rt, func() {
